@@ -477,12 +477,23 @@ def check(idx: Index, rep: Report, tier: str) -> str:
     got = _flat(applies[0].args, at)
     want = [f"{p[1]}.clone()", f"{p[2]}.clone()"]
     rets = [n for n in walk_local(f.node) if isinstance(n, ast.Return)]
-    if len(rets) != 1 or rets[0].value is None:
-        raise AnalysisError(f"{f.fq}: expected one return of a pair")
-    rv = ast.parse(resolved_text(cfg, rets[0].value, cfg.node_of(rets[0])), mode="eval").body
-    if not isinstance(rv, ast.Tuple):
-        raise AnalysisError(f"{f.fq}: the returned value `{ast.unparse(rv)}` does not resolve to a pair")
-    rgot = [ast.unparse(e) for e in rv.elts]
+    if not rets or any(rt.value is None for rt in rets):
+        raise AnalysisError(f"{f.fq}: expected returns of a pair")
+    rgot = None
+    for rt in rets:
+        rv = ast.parse(resolved_text(cfg, rt.value, cfg.node_of(rt)), mode="eval").body
+        if not isinstance(rv, ast.Tuple):
+            raise AnalysisError(f"{f.fq}: the returned value `{ast.unparse(rv)}` does not resolve to a pair")
+        one = [ast.unparse(e) for e in rv.elts]
+        # a return that hands back the caller's own objects (the parameters) is the positive evidence looked for
+        if any(x in (p[1], p[2]) for x in one):
+            r5.fail(f.fq + f":return@{rt.lineno - f.node.lineno}", Finding("C02.R5", f.fq, "returns-original", f"`{unparse(rt)[:60]}` hands back the caller's own ({', '.join(one)}) instead of the copies: callers treat the result of apply_to_clone as an independent module and edit it in place, which now edits the original on the inputs that take this path", f"{PASSES}:{rt.lineno}"))
+            continue
+        if rgot is not None and one != rgot:
+            raise AnalysisError(f"{f.fq}: returns different pairs on different paths ({rgot} / {one})")
+        rgot = one
+    if rgot is None:
+        rgot = []
     # clone called once each (same object applied and returned)
     n_clones = len([c for c in calls_in(f.node) if call_attr(c) == "clone"])
     if got == want and rgot == want and n_clones == 2:
